@@ -27,6 +27,7 @@ LEVEL_TEXT = (
     "grid object', 'continuing a simulation at t=500'; requested points 4e-6 / 1e-3 before and after a "
     "boundary; step dictionaries with keys reversed / mixed between steps / naming one parameter only; integer "
     "durations and integer time-point arrays. "
+    ' Also: protocols that last a day and more, and a sub-second step after a long one.'
 )
 LEVEL_NOTE = "trusted: closed form of the linear ODE, scipy LSODA at 1e-8"
 RULE = (
